@@ -274,7 +274,7 @@ prop("C04", engine="e1", rule=(
     "ASan; non-trivial = a class with >= 2 direct bases exists and >= 2 "
     "(method, parameter) pairs share a class"),
     quick=dict(cases=30000, size=60), thorough=dict(fuzz=dict(engine="e1f", workers=4, runs=300000), cases=200000, size=100))
-prop("C02", engine="e1", rule=(
+prop("C02", engine="e1", program="c02", rule=(
     "random registries biased to gaps and ambiguities (duplicated "
     "definitions included), all signature shapes, error facets vectored / "
     "deprecated call_error / throw_error; every unresolvable tuple (up to 6 "
@@ -283,7 +283,15 @@ prop("C02", engine="e1", rule=(
     "ids of the virtual arguments in order, a later call still dispatches; "
     "for one case in eight the handler returns in a forked child which must "
     "die by abort; non-trivial = an erroring method with a non-virtual "
-    "parameter or arity >= 2"),
+    "parameter or arity >= 2. Third generator (programs): a DAG of real "
+    "classes, one method of arity 1..3 with int / std::string parameters "
+    "between virtual ones of kinds T&, T*, shared_ptr, virtual_ptr, few "
+    "definitions; the error is observed through default_policy::error, "
+    "set_error_handler, the deprecated set_method_call_error_handler, or a "
+    "throw_error policy, compiled with or without NDEBUG; every tuple is "
+    "checked against the model (status, arity, typeid of the dynamic "
+    "classes, one delivery, no body, a later call still works) and one "
+    "erroring call is repeated in a forked child with a returning handler"),
     quick=dict(also=[dict(engine="e2", workers=4, cases=1500)], cases=12000, size=60), thorough=dict(also=[dict(engine="e2", workers=4, cases=20000)], cases=100000, size=100))
 prop("C05", engine="e4", rule=(
     "histories of 1..6 successive publish_vptrs calls (what update does) on "
@@ -672,7 +680,8 @@ def replay_file(exe, path, fork=True):
 
 PROGRAM_ENGINES = {"c11": "proggen.c11", "c20": "proggen.c20",
                    "c13": "proggen.c13", "c07": "proggen.c07",
-                   "c03": "proggen.c03", "c10": "proggen.c10"}
+                   "c03": "proggen.c03", "c10": "proggen.c10",
+                   "c02": "proggen.c02"}
 
 
 def program_module(name):
